@@ -56,7 +56,7 @@ class Job:
 def _san_env(flavor, logbase):
     env = {}
     if flavor == "asan":
-        env["ASAN_OPTIONS"] = "abort_on_error=1:detect_leaks=%s:halt_on_error=1:allocator_may_return_null=1:detect_stack_use_after_return=0" % os.environ.get("VF_LSAN", "0")
+        env["ASAN_OPTIONS"] = "abort_on_error=1:detect_leaks=%s:halt_on_error=1:allocator_may_return_null=1:detect_stack_use_after_return=1" % os.environ.get("VF_LSAN", "0")
         env["UBSAN_OPTIONS"] = "print_stacktrace=1:halt_on_error=1"
         env["LSAN_OPTIONS"] = "exitcode=23"
     elif flavor == "tsan":
